@@ -223,12 +223,23 @@ func enumShapes(tier string, shapes []*tbin.Shape, yield func(*scen) bool) {
 				w = "field"
 			}
 			prog := jt.Plain(root)
-			for n := 0; n <= 3; n++ {
+			for n := 0; n <= 5; n++ {
 				if n > 1 && s.Depth() == 0 {
 					continue
 				}
+				if n > 3 && !tbin.HasStructInContainer(s) {
+					continue
+				}
 				g := &tbin.Gen{}
-				v := g.Build(root, n)
+				nn := n
+				if nn > 3 {
+					nn = 3
+				}
+				v := g.Build(root, nn)
+				if n > 3 {
+					// n = 4 / 5: three elements, the later ones lack the first / last field of their structs
+					tbin.DropInLater(v, n == 4)
+				}
 				for _, os := range sets {
 					ks := ksFor(tier, true)
 					if os.Mask == 0 {
